@@ -58,9 +58,10 @@ func c03DenyPathAs(c *Ctx, rule string) {
 }
 
 // attrGetRaw: v is x.GetAttribute(name) (possibly type-asserted, plain or comma-ok), or the result
-// of a first-party helper (depth <= 2) every non-zero return of which is that for the helper's own
-// parameters; returns the identity operand and the name operand in the frame of v's function.
-func attrGetRaw(v ssa.Value, depth int) (id, name ssa.Value, ok bool) {
+// of a first-party helper (depth <= 2) every non-zero return of which is that; returns the identity
+// operand, the name operand and — when the identity is identity.FromCtx(c) — the context operand c,
+// each translated through the helpers' parameters into the frame of v's function.
+func attrGetRaw(v ssa.Value, depth int) (id, name, ctx ssa.Value, ok bool) {
 	v = strip(unspill(v))
 	if ex, isEx := v.(*ssa.Extract); isEx && ex.Index == 0 {
 		if ta, isTA := ex.Tuple.(*ssa.TypeAssert); isTA {
@@ -80,19 +81,27 @@ func attrGetRaw(v ssa.Value, depth int) (id, name ssa.Value, ok bool) {
 		idx = x.Index
 	}
 	if call == nil {
-		return nil, nil, false
+		return nil, nil, nil, false
 	}
 	if call.Call.IsInvoke() {
 		if call.Call.Method.Name() != "GetAttribute" || idx != 0 {
-			return nil, nil, false
+			return nil, nil, nil, false
 		}
-		return call.Call.Value, call.Call.Args[0], true
+		idv := call.Call.Value
+		var cv ssa.Value
+		if ic, isCall := strip(rv(strip(localVal(strip(idv))))).(*ssa.Call); isCall && calleeName(ic) == identPkgPath+".FromCtx" {
+			cv = arg(ic, 0)
+		}
+		return idv, call.Call.Args[0], cv, true
 	}
 	h := call.Call.StaticCallee()
 	if h == nil || !IsFirstParty(h) || h.Blocks == nil || depth >= 2 {
-		return nil, nil, false
+		return nil, nil, nil, false
 	}
 	up := func(x ssa.Value) ssa.Value {
+		if x == nil {
+			return nil
+		}
 		if p, isP := strip(x).(*ssa.Parameter); isP {
 			for j, q := range h.Params {
 				if q == p && j < len(call.Call.Args) {
@@ -104,43 +113,41 @@ func attrGetRaw(v ssa.Value, depth int) (id, name ssa.Value, ok bool) {
 	}
 	for _, r := range returnsOf(h) {
 		if idx >= len(r.Results) {
-			return nil, nil, false
+			return nil, nil, nil, false
 		}
 		rv0 := strip(unspill(r.Results[idx]))
 		if k, isC := rv0.(*ssa.Const); isC && (k.Value == nil || isZeroConst(k)) {
 			continue
 		}
-		i2, n2, ok2 := attrGetRaw(rv0, depth+1)
+		i2, n2, c2, ok2 := attrGetRaw(rv0, depth+1)
 		if !ok2 {
-			return nil, nil, false
+			return nil, nil, nil, false
 		}
-		i2, n2 = up(i2), up(n2)
-		if id != nil && (strip(id) != strip(i2) || strip(name) != strip(n2)) {
-			return nil, nil, false
+		i2, n2, c2 = up(i2), up(n2), up(c2)
+		if c2 == nil && i2 != nil {
+			// the identity was handed to the helper: it may be FromCtx(c) in this frame
+			if ic, isCall := strip(rv(strip(localVal(strip(i2))))).(*ssa.Call); isCall && calleeName(ic) == identPkgPath+".FromCtx" {
+				c2 = arg(ic, 0)
+			}
 		}
-		id, name = i2, n2
+		if id != nil && (strip(name) != strip(n2) || (ctx == nil) != (c2 == nil) || ctx != nil && strip(ctx) != strip(c2)) {
+			return nil, nil, nil, false
+		}
+		id, name, ctx = i2, n2, c2
 	}
-	return id, name, id != nil
+	return id, name, ctx, id != nil
 }
 
 // isAttrGet: v is <identity from ctxVal>.GetAttribute(const name), directly or through a helper.
 func isAttrGet(v ssa.Value, name string, ctxVal ssa.Value) bool {
-	idv, nv, ok := attrGetRaw(v, 0)
-	if !ok {
+	_, nv, cv, ok := attrGetRaw(v, 0)
+	if !ok || cv == nil {
 		return false
 	}
 	if s, ok := constString(nv); !ok || s != name {
 		return false
 	}
-	id, ok := strip(rv(strip(idv))).(*ssa.Call)
-	if !ok {
-		return false
-	}
-	n := calleeName(id)
-	if n == identPkgPath+".FromCtx" {
-		return ctxVal == nil || arg(id, 0) == ctxVal || rv(arg(id, 0)) == ctxVal
-	}
-	return false
+	return ctxVal == nil || cv == ctxVal || rv(cv) == ctxVal || strip(cv) == ctxVal
 }
 
 func c04Guard(c *Ctx) {
